@@ -14,9 +14,9 @@ Methods == {}
 Paths == {}
 MaxSeq == 1000
 MaxUpd == 1000
-Vers == {1, 2}
-VStr(v) == IF v = 1 THEN "1" ELSE "2"
-Counter(r, c, v) == "cp-" \o r \o "-" \o c \o "-v" \o VStr(v)
+Vers == {1, 2, 3}
+VStr(v) == IF v = 1 THEN "1" ELSE IF v = 2 THEN "2" ELSE "3"
+Counter(r, c, v) == IF v = 3 THEN "cp-any-" \o c \o "-v3" ELSE "cp-" \o r \o "-" \o c \o "-v" \o VStr(v)
 INSTANCE Auth
 ln(k) == Trace[k]
 SeqSet(s) == {s[i] : i \in DOMAIN s}
